@@ -25,17 +25,17 @@ def Good (p1 p2 p3 : BitVec 8) : Bool :=
 theorem lane_iff (c p1 p2 p3 : BitVec 8) (h : Good p1 p2 p3 = true) :
     (checkBlockLane c p1 p2 p3 = 0x00#8) ↔ (stepC (stOfC p1 p2 p3) c ≠ 8) := by
   simp only [Byte, Good, stOfC, checkBlockLane, ult, uge, cmpeq, maxu, stepC, inR] at h ⊢
-  bv_decide
+  bv_decide (timeout := 300)
 
 theorem lane_good (c p1 p2 p3 : BitVec 8) (h : Good p1 p2 p3 = true)
     (hs : stepC (stOfC p1 p2 p3) c ≠ 8) : Good c p1 p2 = true := by
   simp only [Byte, Good, stOfC, stepC, inR] at h hs ⊢
-  bv_decide
+  bv_decide (timeout := 300)
 
 theorem lane_state (c p1 p2 p3 : BitVec 8) (h : Good p1 p2 p3 = true)
     (hs : stepC (stOfC p1 p2 p3) c ≠ 8) : stOfC c p1 p2 = stepC (stOfC p1 p2 p3) c := by
   simp only [Byte, Good, stOfC, stepC, inR] at h hs ⊢
-  bv_decide
+  bv_decide (timeout := 300)
 
 theorem avx2Go_eq (l : List Byte) : ∀ (p1 p2 p3 : Byte) (s : St),
     code s = stOfC p1 p2 p3 → Good p1 p2 p3 = true → avx2Go p1 p2 p3 l = (run s l != .dead) := by
